@@ -539,6 +539,33 @@ func (v *Verifier) evalCall(env *Env, e *Expr) *Val {
 		e2.Heap = env.OldHeap
 		e2.Epoch = env.OldEpoch
 		return v.eval(&e2, args[0])
+	case "entry":
+		// entry(e): e in the state at the first arrival at the (innermost) loop whose invariant is being stated;
+		// after the loop: the state at the first arrival at the last loop entered
+		ls := env.St
+		if ls == nil {
+			ls = env.LocalSt
+		}
+		if ls == nil || len(ls.LoopEntry) == 0 {
+			// the loop was never reached on this path: the current state
+			return v.eval(env, args[0])
+		}
+		best := -1
+		for n := range ls.LoopEntry {
+			if n > best {
+				best = n
+			}
+		}
+		if len(args) == 2 {
+			best, _ = strconv.Atoi(args[1].Lit)
+		}
+		snap := ls.LoopEntry[best]
+		e2 := *env
+		e2.LocalSt = ls
+		e2.St = nil
+		e2.Heap = snap.Heap
+		e2.Epoch = snap.Epoch
+		return v.eval(&e2, args[0])
 	case "len":
 		a := arg(0)
 		switch t := a.T.Underlying().(type) {
